@@ -9,3 +9,5 @@ CONSTANTS
  Datas = {}
  Prefixes = {}
  MaxOps = 0
+ Styles = {}
+ EmptyData = "d0"
